@@ -115,6 +115,19 @@ func verifyFunc(p *Program, fn *ssa.Function, fc *FuncContract) (u *UnitResult) 
 		}
 	}
 	fr.preRegisterHeaps(fn, 0, map[*ssa.Function]bool{})
+	for txt, g := range map[string]string{"written(": "G_written", "consumed(": "G_consumed", "wrote(": "G_wbytes", "lines(": "G_lines", "lastInt(": "G_lastInt", "lastSlice(": "G_lastSlice", "emitted(": "G_lastSlice"} {
+		if fc.mentions(txt) {
+			vc.regHeap(g, ghostSorts[g])
+		}
+	}
+	for _, m := range fc.Modifies {
+		if strings.HasPrefix(m, "ghost ") {
+			g := "G_" + strings.TrimSpace(m[6:])
+			if srt, ok := ghostSorts[g]; ok {
+				vc.regHeap(g, srt)
+			}
+		}
+	}
 	fr.entry = st.clone()
 	u.entry = fr.entry
 	// modifies
